@@ -188,7 +188,9 @@ pub fn expand_flow(
             ("total_flow_asset", total_flow_asset.to_string()),
         ]);
 
-        Ok(Response::default().add_attributes(attributes))
+        Ok(Response::default()
+            .add_attributes(attributes)
+            .add_messages(messages))
     } else {
         Err(ContractError::NonExistentFlow {
             invalid_identifier: flow_identifier,
